@@ -1119,6 +1119,13 @@ def literal_view(env):
              n.value.unit if n.keyword in ('int', 'float') else None) for n in env.nodes]
 
 
+C13_TEXTS += [
+    # tab characters INSIDE a string value are part of the value (a Makefile recipe, a tab-separated header)
+    ("tabs-inside-string-values", 'build\n  sep str = "a\tb"\n  make\n    header str = \'name\tsize\'\n    rule str = """\nall: main.o\n\tcc -o all main.o\n"""\n  n uint16 = 3\n',
+     [("build.sep", "str", "a\tb", None), ("build.make.header", "str", "name\tsize", None), ("build.make.rule", "str", "all: main.o\n\tcc -o all main.o", None), ("build.n", "int", 3, None)]),
+]
+
+
 @contract(DIPC + ".parse", ["C13"], name="DIP.parse[literal-texts]")
 def _(c):
     c.bound = f"{len(C13_TEXTS)} concrete texts (comments, blank lines, mixed indentation widths, dotted names, blocks, a table, numbers in every notation, none)"
